@@ -597,6 +597,12 @@ def ResolveBinaryExpressionType(
     assert isinstance(operation, op.Operation)
 
     if op.IsComparison(operation):
+        # Comparing matrices is not defined
+        if left.IsMatrix() or right.IsMatrix():
+            Errors.ERROR_INVALID_BINARY_EXPRESSION_OPERATION.Raise(
+                operation, left, right
+            )
+
         # Cast may be still necessary if we compare integers with floats
         baseType = _GetCommonPrimitiveType(left, right)
 
